@@ -23,6 +23,7 @@ from .. import REPO
 from ..framework import native_replay, write_replay_file
 from ..pyvc.src import Repo
 from ..pyvc.interp import Interp
+from ..pyvc.ctx import Settings
 from ..pyvc.values import zand, zor, znot, zbool
 from . import c05, c06, lemmas
 
@@ -69,6 +70,135 @@ def t_sort_key(repo, specs, r):
     return fn
 
 
+def lemma_axioms(syms):
+    """The bit-level lemmas of this check (tasks lemma/order-transfer-adjacency[r], lemma/key-injective[r]) as
+    loop-level hypotheses about the uninterpreted symbols, for a first child c and any valid cell y."""
+    from ..pyvc.values import zand, zor
+    RES, VALIDID, FIRSTC, STRIDEF, PAR1, KEYF, REL = (syms[k].decl for k in ("RES", "VALIDID", "FIRSTC", "STRIDEF", "PAR1", "KEYF", "REL"))
+    c, y = z3.Int("c"), z3.Int("y")
+
+    def sib(j):
+        return c + j * STRIDEF(RES(c))
+
+    def unrel_all(n):
+        return zand(*[z3.Not(REL(sib(j), y)) for j in range(n)])
+
+    def concl(n):
+        return zand(z3.Not(REL(PAR1(c), y)), z3.Not(REL(y, PAR1(c))),
+                    z3.Implies(KEYF(y) < KEYF(c), KEYF(y) < KEYF(PAR1(c))),
+                    z3.Implies(KEYF(y) > KEYF(sib(n - 1)), KEYF(y) > KEYF(PAR1(c))))
+    pre = zand(VALIDID(c), FIRSTC(c), VALIDID(y), RES(c) >= 0, RES(c) <= 29)
+    body = z3.Implies(pre, zand(z3.Implies(zand(RES(c) >= 2, unrel_all(4)), concl(4)),
+                                z3.Implies(zand(RES(c) == 1, unrel_all(5)), concl(5)),
+                                # level 0: every valid cell is related to one of the twelve faces
+                                z3.Implies(RES(c) == 0, z3.Not(unrel_all(12)))))
+    ax = [z3.ForAll([c, y], body, patterns=[z3.MultiPattern(PAR1(c), KEYF(y))])]
+    a, b = z3.Int("a"), z3.Int("b")
+    ax.append(z3.ForAll([a, b], REL(a, b) == REL(b, a), patterns=[REL(a, b)]))
+    return ax
+
+
+def t_compact_canonical(repo, specs):
+    """Loop level (abstraction, mathematical ints): for an input of valid, pairwise non-ancestral cells the output of
+    the real compact is strictly increasing in the sort key (hence duplicate-free), pairwise unrelated, and contains
+    no complete contiguous sibling group."""
+    from ..pyvc.interp_expr import UF
+    from ..pyvc.values import SymList, zand
+    from ..contracts.registry import registry_abs_canonical
+    from ..contracts import compact_contracts as cc
+    I, B = z3.IntSort(), z3.BoolSort()
+
+    def fn(ctx):
+        syms = {
+            "RES": UF("RES", z3.Function("RES", I, I)), "VALIDID": UF("VALIDID", z3.Function("VALIDID", I, B)),
+            "FIRSTC": UF("FIRSTC", z3.Function("FIRSTC", I, B)), "STRIDEF": UF("STRIDEF", z3.Function("STRIDEF", I, I)),
+            "PAR1": UF("PAR1", z3.Function("PAR1", I, I)), "KEYF": UF("KEYF", z3.Function("KEYF", I, I)),
+            "REL": UF("REL", z3.Function("REL", I, I, B)),
+        }
+        env = dict(syms)
+        RX = z3.Int("RX")
+        env["RX"] = RX
+        it = Interp(ctx, repo, registry_abs_canonical(), specs, by_contract=[cc.GRES, cc.FIRST, cc.STRIDE, cc.PARENT, cc.SORTKEY], extra_globals=env)
+        RES, VALIDID, REL, KEYF = syms["RES"].decl, syms["VALIDID"].decl, syms["REL"].decl, syms["KEYF"].decl
+        arr0, n0 = z3.Array("cells", I, I), z3.Int("ncells")
+        cells = SymList(arr0, n0)
+        k, k2 = z3.Int("k"), z3.Int("k2")
+        ctx.assume(zand(n0 >= 0, RX == 29))
+        ctx.assume(z3.ForAll([k], z3.Implies(zand(k >= 0, k < n0), zand(VALIDID(z3.Select(arr0, k)), RES(z3.Select(arr0, k)) >= -1,
+                                                                         RES(z3.Select(arr0, k)) <= 29)), patterns=[z3.Select(arr0, k)]))
+        # the input is an antichain (duplicates allowed): related elements are equal
+        ctx.assume(z3.ForAll([k, k2], z3.Implies(zand(k >= 0, k < n0, k2 >= 0, k2 < n0, REL(z3.Select(arr0, k), z3.Select(arr0, k2))),
+                                                 z3.Select(arr0, k) == z3.Select(arr0, k2)),
+                             patterns=[z3.MultiPattern(z3.Select(arr0, k), z3.Select(arr0, k2))]))
+        if lemmas.sort_key_function(repo) is None:
+            ctx.assume(z3.ForAll([k], KEYF(k) == k, patterns=[KEYF(k)]))
+        for ax in lemma_axioms(syms):
+            ctx.assume(ax)
+        it.sorted_global = True
+        res = it.call(cc.COMPACT, cells)
+        e = dict(env)
+        e.update({"result": res, "cells": SymList(arr0, n0)})
+        if isinstance(res, list):
+            return {"ncells": n0}
+        ctx.oblige("output-strictly-increasing-in-the-sort-key(no duplicates)", it.eval_formula(cc.SORTED % ("result", "result", "result", "result"), e), None, "post")
+        ctx.oblige("output-pairwise-unrelated", it.eval_formula(cc.UNREL % ("result", "result", "result", "result"), e), None, "post")
+        ctx.oblige("output-has-no-complete-contiguous-sibling-group", it.eval_formula("all(not GROUPAT(result, p) for p in range(0, len(result)))", e), None, "post")
+        ctx.cover("compact returns")
+        return {"ncells": n0}
+    return fn
+
+
+def t_group_contiguous(repo, specs, n):
+    """List lemma (loop level, no code): in a strictly key-sorted list of pairwise unrelated valid cells, a complete
+    sibling group (n = 4, 5 or 12 cells at stride distance from a first child) that is a SUBSET of the list occupies
+    consecutive positions in sibling order - so "no complete contiguous group" (proved for compact's output) means
+    "no complete group at all".  Uses the bit-level adjacency / sibling-order lemmas as hypotheses."""
+    from ..pyvc.values import zand, zor
+    I, B = z3.IntSort(), z3.BoolSort()
+
+    def fn(ctx):
+        RES, VALIDID, FIRSTC = z3.Function("RES", I, I), z3.Function("VALIDID", I, B), z3.Function("FIRSTC", I, B)
+        STRIDEF, KEYF, REL = z3.Function("STRIDEF", I, I), z3.Function("KEYF", I, I), z3.Function("REL", I, I, B)
+        L, ln, c = z3.Array("L", I, I), z3.Int("len"), z3.Int("c")
+        a, b, y = z3.Int("a"), z3.Int("b"), z3.Int("y")
+        pos = [z3.Int("p%d" % j) for j in range(n)]
+        sib = [c + j * STRIDEF(RES(c)) for j in range(n)]
+        ctx.assume(zand(ln >= 0, VALIDID(c), FIRSTC(c), RES(c) >= 2 if n == 4 else RES(c) == (1 if n == 5 else 0)))
+        # hypotheses as schemas; they are used through explicit instances (proof script): every instance is a
+        # consequence of the universally quantified hypothesis, so adding it assumes nothing more
+        def valid_at(i):
+            return z3.Implies(zand(i >= 0, i < ln), VALIDID(z3.Select(L, i)))
+
+        def sorted_unrelated(i, k):
+            return z3.Implies(zand(i >= 0, i < k, k < ln), zand(KEYF(z3.Select(L, i)) < KEYF(z3.Select(L, k)),
+                                                             z3.Not(REL(z3.Select(L, i), z3.Select(L, k))),
+                                                             z3.Not(REL(z3.Select(L, k), z3.Select(L, i)))))
+
+        def adjacency(j, yy):
+            return z3.Implies(zand(VALIDID(yy), *[z3.Not(REL(s_, yy)) for s_ in sib]),
+                              z3.Not(zand(KEYF(sib[j]) < KEYF(yy), KEYF(yy) < KEYF(sib[j + 1]))))
+        ctx.assume(z3.ForAll([a], valid_at(a), patterns=[z3.Select(L, a)]))
+        ctx.assume(z3.ForAll([a, b], sorted_unrelated(a, b), patterns=[z3.MultiPattern(z3.Select(L, a), z3.Select(L, b))]))
+        for j in range(n - 1):
+            ctx.assume(KEYF(sib[j]) < KEYF(sib[j + 1]))      # bit level: siblings-in-key-order
+            ctx.assume(z3.ForAll([y], adjacency(j, y), patterns=[KEYF(y)]))   # bit level: adjacency
+        # the group is a subset of the list
+        for j in range(n):
+            ctx.assume(zand(pos[j] >= 0, pos[j] < ln, z3.Select(L, pos[j]) == sib[j]))
+        points = list(pos) + [pos[j] + 1 for j in range(n - 1)]
+        for i in points:
+            ctx.assume(valid_at(i))
+            for k in points:
+                ctx.assume(sorted_unrelated(i, k))
+        for j in range(n - 1):
+            ctx.assume(adjacency(j, z3.Select(L, pos[j] + 1)))
+        for j in range(n - 1):
+            ctx.oblige("sibling-%d-directly-follows-sibling-%d" % (j + 1, j), pos[j + 1] == pos[j] + 1, None, "lemma")
+        ctx.cover("group-contiguous hypotheses")
+        return {}
+    return fn
+
+
 def tasks(tier):
     repo = Repo(REPO)
     specs = specs_module()
@@ -87,6 +217,12 @@ def tasks(tier):
     if kf and not kf.startswith("<"):
         for r in range(-1, 30):
             out.append(PTask("C09/sort-key[r=%d]" % r, t_sort_key(repo, specs, r), [kf], replay_kind="compact", replay_payload=rp))
+    st = Settings(theory="int")
+    out.append(PTask("C09/compact-canonical(loop level)", t_compact_canonical(repo, specs), [COMPACT], deciding=True, replay_kind="compact",
+                     replay_payload=rp, settings=st, timeout_ms=120000))
+    for n in (4, 5, 12):
+        out.append(PTask("C09/lemma/complete-group-is-contiguous[n=%d]" % n, t_group_contiguous(repo, specs, n), [], deciding=True,
+                         replay_kind="compact", replay_payload=rp, settings=st))
     out.append(PTask("C09/lemma/key-injective[r=-1]", lemmas.t_key_injective(repo, specs, -1), [kf] if kf else [], deciding=True,
                      replay_kind="compact", replay_payload=rp, timeout_ms=120000))
     return out
@@ -95,7 +231,8 @@ def tasks(tier):
 ASSUMPTIONS = BASE_TRUSTED + [
     "A2: sorted(set(X), key=K) returns the K-strictly-increasing enumeration of the element set of X (builtin contract; K injective on valid ids is proved)",
     "A10 (paper): a group-free antichain with a given coverage is unique, so 'sorted, duplicate-free, no complete sibling group, same coverage (C08)' is the canonical set",
-    "the loop-level step from the bit-level lemmas to 'no complete sibling group is left' is NOT proved here: it is covered by a bounded native check (labelled bounded, not counted in discharged)",
+    "loop level: compact's loops are verified over the abstraction (mathematical ints; RES/FIRSTC/STRIDEF/PAR1/KEYF/REL uninterpreted; callees by contract) with the bit-level lemmas of this check as hypotheses; the bounded native check on the antichain pool is kept as an additional, labelled stand-in and is not counted",
+    "idempotence and 'the one canonical set' follow from the proved facts (sorted by key, pairwise unrelated, no complete group), C08 and A10 on paper; they are additionally exercised by the bounded native check",
     "Python ints are 80-bit signed bit-vectors with a proved no-wrap obligation per operation",
 ]
 
